@@ -152,6 +152,10 @@ def run_for(I, node, spec, st, ctx, k):
   lname = spec.name or ("loop@" + where)
 
   def with_iter(st0, seq):
+    from .values import SEnum
+    enum = isinstance(seq, SEnum)
+    if enum:
+      seq = seq.ref
     if not (isinstance(seq, Ref) and st0.obj(seq).kind == "slist"):
       raise Unsupported("for-loop invariant given for a loop over a concrete sequence at %s" % where)
     n = zint(st0.obj(seq).data["len"])
@@ -191,7 +195,7 @@ def run_for(I, node, spec, st, ctx, k):
                   return I.truth(inv2, st8, ctx, with_t3, node)
                 return eval_pred(spec.invariant, st7, concretize(i + 1), chk)
               c2 = ctx.replace(brk_k=k, cont_k=end_iter)
-              return I.assign(node.target, SElem(seq, i), st3, ctx,
+              return I.assign(node.target, (i, SElem(seq, i)) if enum else SElem(seq, i), st3, ctx,
                               lambda st4: I.ex(node.body, 0, st4, c2, end_iter))
             def done(st3):
               return I.ex(node.orelse, 0, st3, ctx, k)
